@@ -9,7 +9,7 @@ try:
     assert s.count(old) >= 1, 'pattern not found'
     open(p, 'w').write(s.replace(old, new, 1))
     env = dict(os.environ, PYVC_REPO_SRC=d + '/src', PYVC_OUT_DIR=d)
-    r = subprocess.run(['/verif/.venv/bin/python', '/var/tmp/one.py'] + sys.argv[4:], env=env, capture_output=True, text=True)
+    r = subprocess.run(['/verif/.venv/bin/python', os.path.join(os.path.dirname(os.path.abspath(__file__)), 'one.py')] + sys.argv[4:], env=env, capture_output=True, text=True)
     print("\n".join(l for l in r.stdout.splitlines() if 'Warn' not in l))
     print(r.stderr[-600:])
 finally:
